@@ -74,8 +74,10 @@ FORMS = [
     "{{#invoke:m|tag2}}", "{{#invoke:m|tagnw}}", "{{#invoke:m|tagnw2}}", "{{#invoke:m|tagpre}}", "{{#invoke:m|pp2}}", "{{#invoke:m|et2}}",
     "{{#invoke:m|cpf2}}", "{{#invoke:m|child}}", "{{#invoke:m|pv}}", "{{#invoke:m|getarg|@}}", "{{#invoke:m|pairs2|@|k=v}}",
     "{{#invoke:bad|f}}", "{{#invoke:m|cpfbad}}", "{{#ausdruck:1+}}", "{{#ausdruck:1/0/2|@}}", "{{#expr:1/0/2}}", "{{a|²=@}}",
+    # transclusion written with a leading colon (a page of the main namespace, a template by its full name, a missing page)
+    "{{:Intro|@}}", "{{:Template:a|@}}", "{{:Nopage|@}}", "{{Template:a|@}}",
 ]
-QUICK_FORMS = [f for i, f in enumerate(FORMS) if i % 2 == 0 or "invoke" in f or f == "{{#if:1|@|n}}"]
+QUICK_FORMS = [f for i, f in enumerate(FORMS) if i % 2 == 0 or "invoke" in f or f == "{{#if:1|@|n}}" or f.startswith("{{:")]
 SLOW_FORM = "{{#invoke:m|slow}}"
 # nested far deeper than any limit inside a parser function's argument: the recursion error is contained by the function
 # (the first two nest parameters beyond the interpreter's recursion limit; the others reach the depth limit of the
@@ -128,6 +130,7 @@ def make_ctx():
     ctx = new_ctx(lua=True, parser_function_aliases={"#ausdruck": "#expr"})
     for t, b in LIB.items():
         ctx.add_page(t, 10, b)
+    ctx.add_page("Intro", 0, "I{{{1|}}}")
     ctx.add_page("Module:m", 828, MOD_M, model="Scribunto")
     ctx.add_page("Module:bad", 828, MOD_BAD, model="Scribunto")
     ctx.db_conn.commit()
